@@ -259,7 +259,7 @@ pub fn twin_x_case(r: &mut Prng) -> Case {
 pub const META_C02: Meta = Meta {
     id: "C02",
     level: "exploration",
-    rule: "Cases from profiles `flow`+`expand` (C/X rows, loops) with both driver variants (overriding write_input or not), random output layouts and, in 35% of cases, a driver error injected at a random call index. The recording driver logs every call before answering. Online protocol oracle after every step: constructor = exactly one output-reading call with all input-capable signals at default and changed=false; each row = exactly one call whose input list is element-wise identical (signal, value, changed) to row.inputs; output-reading call for checked rows, write_input for mid-clock rows (empty outputs); driver-error item = exactly the failing call; End = no call; nothing after End; every logged call accounted for; device-side vectors equal the prescribed ones. 40% of the error-free cases are run again with the caller consuming the iterator through nth(k) / by_ref().skip(k).next() / step_by(s) / count() / last() / collect() / for_each / fold / find (try_fold) / filter+map: the driver's call log must equal the plain run's call for call and every delivered item must be the plain run's item at that position; 25% are run against a driver TYPE that implements only the required method, so that mid-clock rows go through the trait's own default write_input (same items, same number of calls, same inputs, every call output-reading). Non-trivial = >= 3 rows, call log >= 4, and a C expansion or an injected fault.",
+    rule: "Cases from profiles `flow`+`expand` (C/X rows, loops) with both driver variants (overriding write_input or not), random output layouts and, in 35% of cases, a driver error injected at a random call index. The recording driver logs every call before answering. Online protocol oracle after every step: constructor = exactly one output-reading call with all input-capable signals at default and changed=false; each row = exactly one call whose input list is element-wise identical (signal, value, changed) to row.inputs; output-reading call for checked rows, write_input for mid-clock rows (empty outputs); driver-error item = exactly the failing call; End = no call; nothing after End; every logged call accounted for; device-side vectors equal the prescribed ones. 40% of the error-free cases are run again with the caller consuming the iterator through nth(k) / by_ref().skip(k).next() / step_by(s) / count() / last() / collect() / for_each / fold / find (try_fold) / filter+map: the driver's call log must equal the plain run's call for call and every delivered item must be the plain run's item at that position; 25% are run against a driver TYPE that implements only the required method, so that mid-clock rows go through the trait's own default write_input (same items, same number of calls, same inputs, every call output-reading). About 3 cases in 10 000 are a single loop of 2^16 + 1..300 rows (more rows and calls than a 16-bit counter holds), decided directly: row k carries (k & 1, k >> 8 & 1), one output-reading call per row, nothing after the end. Non-trivial = >= 3 rows, call log >= 4, and a C expansion or an injected fault.",
     assumptions: &[
         "the recording driver sees every call the crate makes (it is the only TestDriver instance)",
         "reference interpreter decides which rows are checked / mid-clock",
@@ -281,8 +281,55 @@ pub fn profile_expand() -> GenCfg {
     c
 }
 
+/// A run of 2^16 + a few rows (one loop, one row in it): more rows and driver calls than a 16-bit
+/// counter holds. Decided without the reference: row k carries (k & 1, k >> 8 & 1), one call
+/// per row, all of them output-reading, nothing after the end.
+fn c02_long_run(case_seed: u64, r: &mut Prng, acc: &mut Acc) {
+    let n = (1usize << 16) + 1 + r.below(300);
+    let text = format!("A B Q\nloop(i,{n})\n(i & 1) ((i >> 8) & 1) X\nend loop\n");
+    let sigs = vec![
+        Sig { name: "A".into(), bits: 1, kind: SigKind::In(InVal::V(0)) },
+        Sig { name: "B".into(), bits: 1, kind: SigKind::In(InVal::V(0)) },
+        Sig { name: "Q".into(), bits: 8, kind: SigKind::Out },
+    ];
+    let script = Script { layout: vec![2], values: ValueFn::Small { salt: 1, modulus: 200 }, faults: vec![], override_write: r.chance(1, 2), rebuild_signals: false };
+    NEVER_CALL_VARS.with(|c| c.set(true));
+    let real = run_text(&text, &sigs, &script, &RunOpts { max_steps: n + 10, probe_after_end: 1, stop_at_error: true, seed: Some(1), continue_on: None });
+    NEVER_CALL_VARS.with(|c| c.set(false));
+    acc.evaluations += 1;
+    acc.event("rows_in_runs_longer_than_2^16", real.steps.len() as u64);
+    let mut f = no_panic(&real);
+    if f.is_none() {
+        let rows = real.steps.iter().take_while(|s| matches!(s.item, RealItem::Row(_))).count();
+        if rows != n || real.steps.len() != n + 2 || real.steps[n..].iter().any(|s| s.item != RealItem::End) {
+            f = Some(Finding::new("long-run-row-count", format!("loop(i,{n}) with one row: {rows} rows, {} items", real.steps.len())));
+        } else if real.calls.len() != n + 1 || real.calls.iter().any(|c| !c.reads) {
+            f = Some(Finding::new("long-run-calls", format!("{n} rows: {} driver calls, {} of them write-only", real.calls.len(), real.calls.iter().filter(|c| !c.reads).count())));
+        } else {
+            for (k, st) in real.steps[..n].iter().enumerate() {
+                let RealItem::Row(row) = &st.item else { unreachable!() };
+                let want = [InVal::V((k & 1) as i64), InVal::V(((k >> 8) & 1) as i64)];
+                let got: Vec<InVal> = row.inputs.iter().map(|i| i.1).collect();
+                let call: Vec<InVal> = real.calls[k + 1].inputs.iter().map(|i| i.2).collect();
+                if got != want || call != want || row.line != 3 || st.calls != (k + 1, k + 2) {
+                    f = Some(Finding::new("long-run-row", format!("row {k} of {n}: inputs {got:?}, driver received {call:?}, line {}, calls {:?}; wanted {want:?}, line 3", row.line, st.calls)));
+                    break;
+                }
+            }
+        }
+    }
+    match f {
+        Some(f) => acc.violation(case_seed, "long-run", f, json!({"text": text})),
+        None => acc.held += 1,
+    }
+}
+
 pub fn c02(case_seed: u64, acc: &mut Acc) {
     let mut r = Prng::new(case_seed);
+    if r.chance(3, 10000) {
+        acc.cases += 1;
+        return c02_long_run(case_seed, &mut r, acc);
+    }
     let mut cfg = if r.chance(1, 2) { profile_expand() } else { super::c01::profile() };
     if r.chance(60, 1000) {
         // a signal list without any output-capable or virtual signal: checked rows then have
@@ -619,7 +666,7 @@ pub fn c04(case_seed: u64, acc: &mut Acc) {
 pub const META_C05: Meta = Meta {
     id: "C05",
     level: "exploration",
-    rule: "Cases from profile `expand`: rows with 0-5 X and 0-3 C entries at any input positions (1-bit, multi-bit, bidirectional inputs), mixed with literals, expressions and bits(), at loop depth 0-3, permuted/partial headers. Oracle: the observed row sequence (inputs, expected, line, checked/mid-clock, call kind) equals the prescribed expansion: for a in 0..2^k (bit j of a drives the j-th X column from the left, so the leftmost varies fastest, 0 first), per assignment one checked row or the clock triple (C:=0 unchecked, C:=1 unchecked, C:=0 checked); expected X/Z never expanded. Shard 0 enumerates all rows of width <= 4 over {0,1,X,C,Z} on three configurations. Non-trivial = a source row with >= 2 X, or >= 2 C, or X and C together, or an expansion inside a loop.",
+    rule: "Cases from profile `expand`: rows with 0-5 X and 0-3 C entries at any input positions (1-bit, multi-bit, bidirectional inputs), mixed with literals, expressions and bits(), at loop depth 0-3, permuted/partial headers. Oracle: the observed row sequence (inputs, expected, line, checked/mid-clock, call kind) equals the prescribed expansion: for a in 0..2^k (bit j of a drives the j-th X column from the left, so the leftmost varies fastest, 0 first), per assignment one checked row or the clock triple (C:=0 unchecked, C:=1 unchecked, C:=0 checked); expected X/Z never expanded. Shard 0 enumerates all rows of width <= 4 over {0,1,X,C,Z} on three configurations. Special shapes, 1-2% of the cases each: rows with 8-10 X (run to the end), rows with 11-130 X (counts just past 31 / 32 / 63 / 64 / 128; the crate expands lazily, the first 40-100 rows are compared), headers of 65-140 columns, twin rows on different lines with identical entries and >= 4 X. Non-trivial = a source row with >= 2 X, or >= 2 C, or X and C together, or an expansion inside a loop.",
     assumptions: &["reference interpreter"],
     quick_cases: 120000,
     thorough_cases: 1500000,
@@ -668,6 +715,55 @@ pub fn c05(case_seed: u64, acc: &mut Acc) {
         };
         acc.tag("wide_row_8_to_10_X");
         c05_case_opts(&case, case_seed, "wide", acc, Some(crate::refint::RefOpts { max_rows: 3300, max_steps: 8000, ..Default::default() }));
+        return;
+    }
+    if r.chance(15, 1000) {
+        // rows with 11-130 X entries: 2^k assignments cannot be run to the end, but the crate
+        // expands lazily and the first rows are prescribed all the same (counts of X just past
+        // 31 / 32 / 63 / 64 / 128, where a counter of assignments would overflow)
+        let k = *r.pick(&[11usize, 12, 16, 31, 32, 33, 63, 64, 65, 100, 127, 128, 129, 130]);
+        let extra_in = r.below(3);
+        let mut sigs: Vec<Sig> = (0..k + extra_in).map(|i| Sig { name: format!("I{i}"), bits: 1, kind: SigKind::In(InVal::V(0)) }).collect();
+        sigs.push(Sig { name: "O".into(), bits: 8, kind: SigKind::Out });
+        r.shuffle(&mut sigs);
+        let header: Vec<String> = sigs.iter().map(|s| s.name.clone()).collect();
+        let mut xs_left = k;
+        let with_c = r.chance(1, 3) && extra_in > 0;
+        let mut c_used = false;
+        let big: Vec<Entry> = sigs
+            .iter()
+            .map(|s| {
+                if s.is_input() {
+                    if xs_left > 0 {
+                        xs_left -= 1;
+                        Entry::X(r.chance(1, 5))
+                    } else if with_c && !c_used {
+                        c_used = true;
+                        Entry::C(false)
+                    } else {
+                        Entry::Lit(r.range(0, 1), Radix::Dec)
+                    }
+                } else {
+                    Entry::X(false)
+                }
+            })
+            .collect();
+        let plain: Vec<Entry> = sigs.iter().map(|s| if s.is_input() { Entry::Lit(r.range(0, 1), Radix::Dec) } else { Entry::Lit(r.range(0, 200), Radix::Dec) }).collect();
+        let mut items = vec![];
+        if r.chance(1, 2) {
+            items.push(Item::Row(1, plain));
+        }
+        items.push(Item::Row(2, big));
+        let o = sigs.iter().position(|s| s.is_output()).unwrap();
+        let case = Case {
+            program: Program { header, items },
+            signals: sigs,
+            script: Script { layout: vec![o], values: ValueFn::Small { salt: r.next_u64(), modulus: 200 }, faults: vec![], override_write: r.chance(1, 2), rebuild_signals: false },
+            layout_opts: crate::pp::Layout::plain(),
+            rng_seed: 1,
+        };
+        acc.tag("row_with_11_to_130_X_first_rows_only");
+        c05_case_opts(&case, case_seed, "huge-x", acc, Some(crate::refint::RefOpts { max_rows: 40 + r.below(60), prefix_only: true, ..Default::default() }));
         return;
     }
     if r.chance(12, 1000) {
@@ -963,7 +1059,7 @@ pub fn c06(case_seed: u64, acc: &mut Acc) {
 pub const META_C14: Meta = Meta {
     id: "C14",
     level: "exploration",
-    rule: "Cases from profile `virtual`: 1-4 `declare` statements placed before, between, after rows and inside loop/while bodies, expressions over 1-3 device outputs (incl. bidirectional), program variables and loop counters deliberately named like the outputs the declarations read, C rows before checked rows, Z/X answers at ~5% of (call,signal) pairs, header with or without the virtual columns. Oracle: in every checked row the entry of each virtual signal (located by name) carries the declared expression evaluated by the reference over the answers of that very call with no variable visible, expected = column of that name else X; a Z/X operand makes exactly that item a runtime error (not a panic, not a value); vars() after every row still equals the program's variables. 15% of the cases have no declaration of their own, only virtual signals that came with the signal list (at any position in it, also before device outputs); the forced shadowing variable is named after an operand of either kind. Non-trivial = >= 1 virtual signal evaluated on >= 2 checked rows with differing operands and >= 1 variable in scope with the name of an operand.",
+    rule: "Cases from profile `virtual`: 1-4 `declare` statements placed before, between, after rows and inside loop/while bodies, expressions over 1-3 device outputs (incl. bidirectional), program variables and loop counters deliberately named like the outputs the declarations read, C rows before checked rows, Z/X answers at ~5% of (call,signal) pairs, header with or without the virtual columns. Oracle: in every checked row the entry of each virtual signal (located by name) carries the declared expression evaluated by the reference over the answers of that very call with no variable visible, expected = column of that name else X; a Z/X operand makes exactly that item a runtime error (not a panic, not a value); vars() after every row still equals the program's variables. 15% of the cases have no declaration of their own, only virtual signals that came with the signal list (at any position in it, also before device outputs); the forced shadowing variable is named after an operand of either kind; 2% put the declarations behind 62-129 outputs (positions 63, 64, 65, 128 ... of the output vector) with a let and a loop counter shadowing their operands. Non-trivial = >= 1 virtual signal evaluated on >= 2 checked rows with differing operands and >= 1 variable in scope with the name of an operand.",
     assumptions: &["reference interpreter; unique answers distinguish this row's outputs from the previous row's"],
     quick_cases: 150000,
     thorough_cases: 2000000,
@@ -996,6 +1092,47 @@ pub fn c14(case_seed: u64, acc: &mut Acc) {
         cfg.list_virtuals = 1000;
     }
     let mut case = gen::generate(&mut r, &cfg);
+    if r.chance(20, 1000) {
+        // many outputs (just below / beyond 64 and 128) in front of the declared signals, which
+        // therefore sit at positions 63, 64, 65, 128 ... of the row's output vector
+        let n = *r.pick(&[62usize, 63, 64, 65, 70, 127, 128, 129]);
+        let mut sigs = vec![Sig { name: "A".into(), bits: 8, kind: SigKind::In(InVal::V(0)) }];
+        for i in 0..n {
+            sigs.push(Sig { name: format!("O{i}"), bits: 8, kind: SigKind::Out });
+        }
+        let a = r.below(n);
+        let b = r.below(n);
+        let mut header = vec!["A".to_string(), format!("O{a}"), "V".to_string()];
+        let two = r.chance(1, 2);
+        if two {
+            header.push("W".into());
+        }
+        let row = |r: &mut Prng, two: bool| {
+            let mut es = vec![Entry::Lit(r.range(0, 200), Radix::Dec), Entry::X(false), Entry::Lit(r.range(0, 300), Radix::Dec)];
+            if two {
+                es.push(Entry::X(false));
+            }
+            es
+        };
+        let mut items = vec![Item::Declare("V".into(), Expr::Bin(BinOp::Add, Box::new(Expr::Ident(format!("O{a}"))), Box::new(Expr::Num(1, Radix::Dec))))];
+        if two {
+            items.push(Item::Declare("W".into(), Expr::Bin(BinOp::Xor, Box::new(Expr::Ident(format!("O{b}"))), Box::new(Expr::Ident(format!("O{a}"))))));
+        }
+        items.push(Item::Row(0, row(&mut r, two)));
+        items.push(Item::Let(format!("O{a}"), Expr::Num(1000 + r.range(0, 9), Radix::Dec)));
+        items.push(Item::Row(0, row(&mut r, two)));
+        items.push(Item::Loop(format!("O{b}"), Expr::Num(2, Radix::Dec), vec![Item::Row(0, row(&mut r, two))]));
+        let mut next = 0;
+        renumber(&mut items, &mut next);
+        case = Case {
+            program: Program { header, items },
+            signals: sigs,
+            script: Script { layout: (1..=n).collect(), values: ValueFn::Unique { salt: r.next_u64(), narrow: true }, faults: vec![], override_write: false, rebuild_signals: false },
+            layout_opts: crate::pp::Layout::plain(),
+            rng_seed: 1,
+        };
+        acc.tag("declared_signals_behind_62_to_129_outputs");
+    }
     // force variables named like the operands of the declarations (the program's own and those
     // of virtual signals in the signal list)
     if r.chance(600, 1000) {
